@@ -19,11 +19,12 @@ package main
 //              replaced by an object `{{ __inc_k }}` (same hyphens) bound to the output of
 //              rendering the file's content directly with the environment plus those assigns.
 //   table      a missing file, a non-string argument or an error inside the included template
-//              fails the render (kind and line checked for the first two).
+//              fails the render (kind and line checked for the first two, when the failing include is
+//              the first top-level one).
 //
-// Cases whose layout has no cache-only file are also emitted as ordinary `render` lines (FS =
-// the disk files), so the Lean model answers them; the others are checked by the oracles alone
-// and are identified by an `incl` line (see inclLine) in violations and replays.
+// Cases whose layout has no cache-only file are emitted as ordinary `render` lines (FS = the disk
+// files); the others as `incl` lines (see inclLine), which carry the cache as well. The Lean driver
+// answers both ops (Driver.lean, runInclCase), so every case is compared with the model.
 
 import (
 	"fmt"
@@ -42,13 +43,7 @@ func init() {
 		if c == nil {
 			return "bad-op"
 		}
-		res := c.check(r, strings.Join(f, " "))
-		if f[0] == "incl" {
-			// the Lean driver does not know the `incl` op yet and answers bad-op; the verdict of
-			// replaying such a line is the oracles' alone
-			return "bad-op"
-		}
-		return res
+		return c.check(r, strings.Join(f, " ")) // `render` and `incl` lines alike: the driver answers both ops
 	}
 }
 
